@@ -303,10 +303,11 @@ func main() {
 			}
 			replayMode.src, _ = m["lua_source"].(string)
 			replayMode.sexp, _ = m["sexp"].(string)
-		} else if cs, ok := m["case"].(float64); ok && cs <= -9000 {
+		} else if cs, ok := m["case"].(float64); ok && (cs <= -9000 || m["requests"] == nil) {
 			// a whole-run self-check of a runner (no operation list): replay = run the property's quick pass with the
 			// recorded seed again and see whether that self-check still fails
 			wholeRunCase = int(cs)
+			wholeRun = true
 			if sd, ok := m["seed"].(float64); ok {
 				*seed = int64(sd)
 			}
@@ -321,10 +322,10 @@ func main() {
 	for _, fn := range fns {
 		fn(run)
 	}
-	if wholeRunCase != 0 {
+	if wholeRun {
 		for _, f := range run.Failures {
 			if f.CaseIdx == wholeRunCase || (f.CaseIdx <= -9100 && wholeRunCase <= -9100) {
-				fmt.Println(f.Line)
+				fmt.Println(f.Line, f.Reply)
 				fmt.Printf("VIOLATION property=%s replay=%s\n", *prop, *replay)
 				os.Exit(1)
 			}
@@ -358,6 +359,7 @@ var replayExec = map[string]Executor{}
 
 // wholeRunCase: CaseIdx (≤ -9000) of the runner self-check a replay file records; 0 = not replaying one.
 var wholeRunCase int
+var wholeRun bool
 
 // doReplay re-runs the requests' ops of a replay file on the current tree and prints the verdicts.
 func doReplay(prop, path string) int {
